@@ -175,21 +175,21 @@ type verifFile struct {
 }
 
 type verifStackCfg struct {
-	regChunk     int64
+	regChunk      int64
 	prefetchChunk int64
-	fsCache      string // "memory" | "dir"
-	httpCache    string
-	lru          int
-	fds          int
-	direct       bool
-	syncAdd      bool
-	verify       bool
-	passThrough  bool
-	mergeBuf     int64
-	asyncSize    int64
-	timeout      time.Duration
-	store        metadata.Store
-	variant      string
+	fsCache       string // "memory" | "dir"
+	httpCache     string
+	lru           int
+	fds           int
+	direct        bool
+	syncAdd       bool
+	verify        bool
+	passThrough   bool
+	mergeBuf      int64
+	asyncSize     int64
+	timeout       time.Duration
+	store         metadata.Store
+	variant       string
 }
 
 func (c verifStackCfg) String() string {
@@ -198,13 +198,13 @@ func (c verifStackCfg) String() string {
 }
 
 type verifStack struct {
-	cfg   verifStackCfg
-	ents  []verifc02.Ent
-	view  map[string]*verifc02.Node
-	opts  verifc02.BuildOpts
-	blob  []byte
-	toc   *estargz.JTOC
-	lines []verifc02.TocLine
+	cfg         verifStackCfg
+	ents        []verifc02.Ent
+	view        map[string]*verifc02.Node
+	opts        verifc02.BuildOpts
+	blob        []byte
+	toc         *estargz.JTOC
+	lines       []verifc02.TocLine
 	noPrefetch  bool
 	prefetchOff int64
 
@@ -219,7 +219,7 @@ type verifStack struct {
 	wc   *verifCache
 
 	files   []*verifFile
-	byName  map[string]int // clean real path -> index into files
+	byName  map[string]int      // clean real path -> index into files
 	keyInfo map[string][3]int64 // cache key -> (fi, off, size)
 }
 
@@ -278,7 +278,7 @@ func verifNewStack(t *testing.T, ents []verifc02.Ent, opts verifc02.BuildOpts, c
 			ValidInterval: 3600, FetchTimeoutSec: 20, MaxRetries: 1, MinWaitMSec: 1, MaxWaitMSec: 2},
 		DirectoryCacheConfig: config.DirectoryCacheConfig{MaxLRUCacheEntry: cfg.lru, MaxCacheFds: cfg.fds,
 			SyncAdd: cfg.syncAdd, Direct: cfg.direct},
-		PrefetchAsyncSize: cfg.asyncSize,
+		PrefetchAsyncSize:  cfg.asyncSize,
 		PrefetchTimeoutSec: 1,
 	}
 	if cfg.fsCache == "memory" {
@@ -615,10 +615,25 @@ func (s *verifStack) opEvict(out *verifutil.Out, rnd *verifutil.Rand) {
 	if len(cands) == 0 {
 		return
 	}
-	c := cands[rnd.Intn(len(cands))]
-	s.wc.evict(reader.VerifC02GenID(s.files[c[0]].id, c[1], c[2]))
-	out.Emit(fmt.Sprintf("evict %d %d %d", c[0], c[1], c[2]), "ok")
-	out.Count("evict")
+	var victims [][3]int64
+	switch rnd.Intn(4) {
+	case 0: // everything
+		victims = cands
+	case 1: // every chunk of one file
+		fi := cands[rnd.Intn(len(cands))][0]
+		for _, c := range cands {
+			if c[0] == fi {
+				victims = append(victims, c)
+			}
+		}
+	default:
+		victims = [][3]int64{cands[rnd.Intn(len(cands))]}
+	}
+	for _, c := range victims {
+		s.wc.evict(reader.VerifC02GenID(s.files[c[0]].id, c[1], c[2]))
+		out.Emit(fmt.Sprintf("evict %d %d %d", c[0], c[1], c[2]), "ok")
+		out.Count("evict")
+	}
 }
 
 func (s *verifStack) opTrunc(out *verifutil.Out, rnd *verifutil.Rand) {
@@ -739,7 +754,7 @@ func verifHistory(t *testing.T, out *verifutil.Out, rnd *verifutil.Rand, s *veri
 	}
 	missing := []string{"nope", "a/nope", "a/c/d/e/f", "f/x", ".prefetch.landmark", ".no.prefetch.landmark", "stargz.index.json"}
 	for i := 0; i < nops || len(pending) > 0; i++ {
-		kind := rnd.Pick(12, 3, 5, 2, 2, 2, 2, 1, 1, 1, 1)
+		kind := rnd.Pick(14, 3, 5, 2, 4, 2, 1, 2, 1, 1, 1)
 		if i >= nops {
 			kind = 2
 		}
